@@ -109,7 +109,7 @@ func writeEvidence(w *World, pc *PropConfig, id, tier string, seed int, results 
 		for k := range r.VC.usedSpecs {
 			if strings.HasPrefix(k, "contract:") {
 				key := k[len("contract:"):]
-				if strings.HasPrefix(key, "invariant assumed") {
+				if strings.HasPrefix(key, "invariant assumed") || strings.HasPrefix(key, "assumed postcondition") {
 					trusted[key] = true
 					continue
 				}
